@@ -1,7 +1,7 @@
 """C09 - recorded transmissions are causally valid and complete."""
 from ..common import Report, Ob
 from ..pyvc import verify as V
-from ..contracts import fast_sir
+from ..contracts import fast_sir, gillespie_full
 from ..effects import binding
 from . import util
 
@@ -14,6 +14,21 @@ def reg_fast():
     return r
 
 
+def reg_gfull():
+    r = V.Registry()
+    for c in gillespie_full.contracts():
+        r.add(c)
+    r.lib_install.append(gillespie_full.install)
+    return r
+
+
+def gfull_jobs(tier):
+    jobs = util.jobs_for(reg_gfull, tier=tier, quals={'Gillespie_SIR'})
+    if tier == 'quick':
+        jobs = [j for j in jobs if j[0][1] in ('list-unweighted', 'list-norecovered-unweighted')]
+    return jobs
+
+
 def run(tier, seed):
     rep = Report('C09', tier, seed)
     quals = {'_process_trans_SIR_', '_process_rec_SIR_', 'myQueue.add', 'myQueue.pop_and_run', 'event_step_SIR', 'fast_nonMarkov_SIR'}
@@ -22,6 +37,7 @@ def run(tier, seed):
     # every chosen (transmitter, recipient) a causally valid transmission
     from . import C01
     jobs += C01.quick_filter(util.jobs_for(C01.reg, quals={'Gillespie_SIR', 'Gillespie_SIS'}, tier=tier), tier)
+    jobs += gfull_jobs(tier)      # Gillespie_SIR with return_full_data=True: what is recorded and handed to Simulation_Investigation
     rep.add_unit_results(util.run_jobs(jobs))
     for ob in binding.ctor_obligations():
         rep.add(ob)
@@ -36,7 +52,9 @@ def run(tier, seed):
                        'time (postcondition, source = the source stored in the event); the global event-loop invariant (queue rule lemma) keeps: one entry per infection, entries '
                        'without a source are exactly the first k ones (the initial nodes, at tmin), sourced entries go along an edge from an already infected node not after '
                        'its recovery, times non-decreasing, and every node is the target of at most one entry (index function) - hence a forest rooted at the initial nodes. '
-                       'Constructor binding for every simulator. The other simulators (Gillespie, SIS, generic, discrete) are decided only by the bounded native stand-in.')
+                       'Gillespie_SIR with return_full_data=True: the main loop carries, on top of the candidate-set invariants, "the first k entries are the initial infections; every later entry (t,u,v) goes along an edge, '
+                       'v\'s recorded infection time is t, u was infected not after t and has not recovered before t; times non-decreasing; no node is the target of two entries; #entries = k + #infections", '
+                       'and exactly that list is handed to Simulation_Investigation. Constructor binding for every simulator. SIS, generic and discrete simulators are decided only by the bounded native stand-in.')
     rep.assumptions += ['queue rule and heapq contract as in C04/C11', 'Simulation_Investigation.transmissions() / transmission_tree() return the stored list / its sourced entries (checked natively)']
-    rep.not_covered += ['unbounded contracts for the transmissions of Gillespie_SIR/SIS (full-data paths), fast_SIS, fast_nonMarkov_SIS, Gillespie_simple_contagion, discrete simulators']
+    rep.not_covered += ['unbounded contracts for the transmissions of Gillespie_SIS (full-data path), fast_SIS, fast_nonMarkov_SIS, Gillespie_simple_contagion, discrete simulators; Gillespie_SIR full-data path with rho / single-node spellings']
     return rep, util.native_replayer
